@@ -73,6 +73,71 @@ theorem cleanAccept_eq (sg : Bool) (name : Name) :
   unfold cleanAccept
   rw [cleanDecision_val]
 
+/-! ## the scan flag: the stateful fold equals the stateless loop
+
+  These lemmas are re-checked against the regenerated `Gen.Files.cleanScanFlagCarried`: they hold because the loop body
+  re-initialises the flag for every entry (`none`).  If the source only initialises it at its declaration, `entryFlag_true`
+  fails, and with it everything that says WHICH names a clean run removes. -/
+
+/-- every directory entry starts its tests with the flag set, whatever the previous entry left in it -/
+theorem entryFlag_true (f : Bool) : entryFlag f = true := by
+  cases f <;> rfl
+
+theorem evalStepF_true (sg : Bool) (name : Name) (s : CleanStep) (b : Bool) (h : evalStep sg name s = .val b) :
+    ∃ f', evalStepF sg name true s = .val (b, f') ∧ (b = false → f' = true) := by
+  cases s with
+  | rejectIfLen op k => exact ⟨true, by simp only [evalStepF, h], fun _ => rfl⟩
+  | rejectIfCharAt i c => exact ⟨true, by simp only [evalStepF, h], fun _ => rfl⟩
+  | rejectIfAnyInRange start op minus c =>
+    simp only [evalStep] at h
+    cases b with
+    | true => exact ⟨false, by simp [evalStepF, h], fun h => by cases h⟩
+    | false => exact ⟨true, by simp [evalStepF, h], fun _ => rfl⟩
+
+/-- started with the flag set, the flag-threading tests decide exactly like the stateless ones (for ANY list of steps) -/
+theorem evalStepsF_true (sg : Bool) (name : Name) : ∀ (steps : List CleanStep) (b : Bool),
+    evalSteps sg name steps = .val b → ∃ f', evalStepsF sg name steps true = .val (b, f')
+  | [], b, h => by
+    simp only [evalSteps] at h
+    cases h
+    exact ⟨true, rfl⟩
+  | s :: rest, b, h => by
+    cases hs : evalStep sg name s with
+    | val r =>
+      obtain ⟨f', hf, hflag⟩ := evalStepF_true sg name s r hs
+      simp only [evalSteps, hs] at h
+      cases r with
+      | true =>
+        cases h
+        exact ⟨f', by simp only [evalStepsF, hf]⟩
+      | false =>
+        have hf' : f' = true := hflag rfl
+        subst hf'
+        obtain ⟨f'', hrest⟩ := evalStepsF_true sg name rest b h
+        exact ⟨f'', by simp only [evalStepsF, hf, hrest]⟩
+    | ub k => simp only [evalSteps, hs] at h; cases h
+    | trap t => simp only [evalSteps, hs] at h; cases h
+    | oof => simp only [evalSteps, hs] at h; cases h
+
+/-- the match loop with the flag as carried state is the stateless loop — for every listing, in every order, from every
+    initial flag -/
+theorem cleanLoopF_eq (sg : Bool) : ∀ (names : List Name) (f : Bool) (st : St),
+    cleanLoopF sg names f st = cleanLoop sg names st
+  | [], f, st => rfl
+  | n :: rest, f, st => by
+    obtain ⟨f', hf⟩ := evalStepsF_true sg n cleanSteps _ (evalSteps_clean sg n)
+    unfold cleanLoopF cleanLoop
+    rw [entryFlag_true, hf, evalSteps_clean]
+    cases (decide (n.length = 13) && firstOk n && ((n.drop 1).take 10).all isDigit) with
+    | true => exact cleanLoopF_eq sg rest f' (removeN st n)
+    | false => exact cleanLoopF_eq sg rest f' st
+
+theorem cleanDir_eq (w : World) (st : St) :
+    cleanDir w st = cleanLoop w.charSigned ((w.listing st.inOut).filter (globMatch globPattern))
+      (st.emit (.glob st.inOut globPatternString)) := by
+  unfold cleanDir
+  exact cleanLoopF_eq _ _ _ _
+
 theorem implName_shape_glob (c : UInt8) (ds : List UInt8) (hc : c = 115 ∨ c = 100) :
     globMatch globPattern (c :: ds ++ [46, 99]) = true := by
   unfold globMatch
